@@ -1,7 +1,7 @@
 (* Lemmas about the client RPC model (Model/ClientRpc.v). *)
 From Coq Require Import Lia ZifyBool ZifyNat ZifyN.
 From Verif.Lib Require Import GoSem Bits.
-From Verif.Gen Require Import Consts.
+From Verif.Gen Require Import Consts Dispatch.
 From Verif.Model Require Import PeerRecord ClientRpc.
 From Verif.Proofs Require Import PeerRecordProofs.
 Local Open Scope Z_scope.
